@@ -288,7 +288,7 @@ class Body:
                     idx[l].append({"b": b, "kind": "yield", "t": t})
         self._uses = idx
 
-    def taint(self, sources, through_calls=True, mut_ref_args=False, stop_calls=None):
+    def taint(self, sources, through_calls=True, mut_ref_args=False, stop_calls=None, self_only_calls=None):
         """Forward, flow-insensitive, field-insensitive taint over locals.
         `sources` is a set of locals; returns the closure.  A call result is tainted by any
         tainted argument unless the callee name satisfies `stop_calls`."""
@@ -310,7 +310,10 @@ class Body:
                 if t["k"] == "call" and through_calls:
                     if stop_calls and any(stop_calls(n) for n in callee_names(t)):
                         continue
-                    hit = any(l in tainted for a in t["args"] for l in operand_locals(a))
+                    args = t["args"]
+                    if self_only_calls and any(self_only_calls(n) for n in callee_names(t)):
+                        args = args[:1]         # e.g. Result::map_err(self, f): the error-building closure's captures do not decide anything
+                    hit = any(l in tainted for a in args for l in operand_locals(a))
                     if hit:
                         dst = t["dest"][0]
                         if dst not in tainted:
